@@ -309,7 +309,7 @@ def main(args):
     ck = Check('C20', args)
     ck.shadow_stats = symx.load().stats
     names = list(TEMPLATES)
-    run_parallel(ck, 'checks.c20', [('template', (n,)) for n in names])
+    run_parallel(ck, 'checks.c20', [('template', (n,)) for n in names], part_timeout_s=150 if ck.tier == 'quick' else 3600)
     ck.assumptions += ['argument lists come from the listed templates (one to four numeric fields symbolic, the rest concrete)',
                        'phase 1 is symbolic up to the constructed model (parsing, constructors, tags, transformations, segmentation, '
                        'ground, connections, source/load registration); the matrix fill and solve are not executed symbolically',
